@@ -557,6 +557,8 @@ func signature(what string) string {
 		return "C09:credited-to-wrong-bucket"
 	case contains(what, "lost"):
 		return "C09:lost-without-overlap"
+	case contains(what, "update lock still held"):
+		return "C09:update-lock-leaked"
 	case contains(what, "deadlock"), contains(what, "livelock"), contains(what, "did not complete"):
 		return "C09:non-termination"
 	}
